@@ -46,6 +46,8 @@ impl CRS {
 
     pub fn get_vertex(&mut self, point: Cartesian) -> Result<Cartesian, String> {
         self.invocations += 1;
+        #[cfg(feature = "verif")]
+        crate::verif::yield_point(crate::verif::site::CRS_GET_VERTEX);
         if self.invocations == 10000 {
             eprintln!("Warning: Too many CRS invocations, results should be cached");
         }
@@ -121,6 +123,14 @@ impl CRS {
 impl Default for CRS {
     fn default() -> Self {
         Self::new().expect("Failed to create CRS")
+    }
+}
+
+#[cfg(feature = "verif")]
+impl CRS {
+    /// Number of vertex lookups performed by this instance so far (read-only probe)
+    pub fn verif_invocations(&self) -> usize {
+        self.invocations
     }
 }
 
